@@ -27,6 +27,10 @@ Theorem C11_tmcg_card_roundtrip : forall c, wf_tcard c -> import_tcard (export_t
 Proof. exact tcard_roundtrip. Qed.
 Print Assumptions C11_tmcg_card_roundtrip.
 
+Theorem C11_tmcg_cardsecret_roundtrip : forall c, wf_tsecret c -> import_tsecret (export_tsecret c) = Some c.
+Proof. exact tsecret_roundtrip. Qed.
+Print Assumptions C11_tmcg_cardsecret_roundtrip.
+
 Theorem C11_stack_roundtrip : forall st, (1 <= length st <= Z.to_nat TMCG_MAX_CARDS)%nat ->
   import_vstack [] (export_vstack st) = Some st.
 Proof. exact vstack_roundtrip. Qed.
